@@ -2,6 +2,7 @@ package c07snowcodec
 
 import (
 	"math"
+	"os"
 	"testing"
 
 	"verifharness/vkit"
@@ -13,15 +14,31 @@ func TestProp_Codec(t *testing.T)  { PartCodec.Run(t) }
 func TestProp_Ranges(t *testing.T) { PartRange.Run(t) }
 func TestProp_Setup(t *testing.T)  { PartSetup.Run(t) }
 
+// The codec functions from several goroutines at once: judged by their answers here, and run once more from the
+// binary built with -race (the driver runs TestRace_* from that binary only).
+func TestProp_Concurrent(t *testing.T) { PartConc.Run(t) }
+func TestRace_Concurrent(t *testing.T) {
+	if os.Getenv("VERIF_RACE") != "1" && os.Getenv("VERIF_REPLAY") == "" {
+		t.Skip("runs from the -race binary")
+	}
+	PartConcRace.Run(t)
+}
+
 // TestEnum_Grid runs the boundary grid completely (it is a complete enumeration
 // of the grid, not of the property's domain, hence exhaustive=false).
 func TestEnum_Grid(t *testing.T) { PartGrid.RunCases(t, GridCases(), false) }
+
+// TestEnum_Calendar runs the calendar grid completely (again a complete enumeration of a grid, not of the domain).
+func TestEnum_Calendar(t *testing.T) { PartCalendar.RunCases(t, CalendarCases(), false) }
 
 func TestReplay(t *testing.T) {
 	PartCodec.Replay(t, 1)
 	PartGrid.Replay(t, 1)
 	PartRange.Replay(t, 1)
 	PartSetup.Replay(t, 1)
+	PartCalendar.Replay(t, 1)
+	PartConc.Replay(t, 50)
+	PartConcRace.Replay(t, 50)
 }
 
 // FuzzCodec is the raw entry: any two non-negative int64 ids under any layout
